@@ -113,9 +113,9 @@ func init() {
 		},
 		Sections: func(tier core.Tier, seed int64) []core.Section {
 			np, nf, nw := len(preludeKinds), len(lineFaults), len(lineWrappers)
-			nRandom, nTree := 8000, 1500
+			nRandom, nTree := 8000, 4000
 			if tier == core.Thorough {
-				nRandom, nTree = 800000, 30000
+				nRandom, nTree = 6000000, 250000
 			}
 			judge := func(c *core.Ctx, src string, want int, f faultKind) {
 				c.Input(src)
